@@ -199,12 +199,28 @@ def gen_bigsketch(rng, kind, i):
     cfg["weigher"] = rng.choice(["value", "none"])
     lines = [cfg_line(cfg)]
     n = rng.choice([200, 320, 450])
+    exact = rng.random() < 0.5
+    if exact:
+        # filled exactly to the brim without a single contended insert; the first contended one is a popular newcomer
+        n = cfg["cap"] = rng.choice([150, 200, 300])
+        cfg["weigher"] = rng.choice(["value", "value", "none"])
+        lines = [cfg_line(cfg)]
     for k in range(n):
-        lines.append(f"I {k} {rng.choice([0, 1, 1, 1, 2])}")
+        lines.append(f"I {k} {1 if exact else rng.choice([0, 1, 1, 1, 2])}")
         if kind == "sync" and rng.random() < 0.05:
             lines.append("S")
     if kind == "sync":
         lines.append("S")
+    if exact:
+        new = n + 7
+        for _ in range(rng.choice([1, 3, 4])):
+            lines.append(f"G {new}")
+            if kind == "sync":
+                lines.append("S")
+        lines.append(f"I {new} 1")
+        if kind == "sync":
+            lines.append("S")
+        lines += [f"G {new}", "G 0", "G 1"]
     for _ in range(30):
         k = rng.randrange(n + 20)
         lines.append(rng.choice([f"G {k}", f"G {k}", f"I {k} 1"]))
@@ -431,3 +447,28 @@ def gen_stuck_excess_case(rng, kind, i):
     lines.append(f"I {big} {rng.choice([cap + 1, cap + cap // 2, cap, cap - 1, 2 * cap + 1])}")
     lines += ["T"] + S + ["T", f"G {big}", f"G {grow}", f"C {big}"] + S + ["T"]
     return (f"{kind[0]}{i}_stuckexcess{nz}", lines)
+
+
+def gen_window_grid(kind):
+    """Small exhaustive grid around the two deadlines of an entry: (ttl, tti) pairs incl. tti < ttl, an access / update /
+    contains_key at time a, then observations (iteration first: it runs no maintenance on the single-threaded cache) at
+    every boundary reading of either deadline."""
+    cases = []
+    n = 0
+    for ttl, tti in ((10, 6), (10, 5), (6, 10), (10, 10), (10, None), (None, 10)):
+        for a in sorted({1, (tti or ttl) - 1, (tti or ttl), (ttl or tti) - 1}):
+            for what in ("G 1", "I 1 77", "C 1"):
+                ts = set()
+                if ttl:
+                    ts |= {ttl - 1, ttl, ttl + 1} | ({a + ttl - 1, a + ttl} if what.startswith("I") else set())
+                if tti:
+                    ts |= {tti, a + tti - 1, a + tti, a + tti + 1}
+                for t in sorted(x for x in ts if x > a):
+                    cfg = {"kind": kind, "cap": "none", "ttl": ttl * SEC if ttl else "none", "tti": tti * SEC if tti else "none",
+                           "weigher": "none", "hasher": "id"}
+                    S = ["S"] if kind == "sync" and n % 2 == 0 else []
+                    lines = [cfg_line(cfg), "I 1 10", "I 2 20"] + S + [f"D {a * SEC}", what] + (S if n % 4 == 0 else []) + \
+                            [f"D {(t - a) * SEC}", "T", "C 1", "G 1", "C 2", "T"] + (["S", "T"] if kind == "sync" else [])
+                    cases.append((f"{kind[0]}{n}_grid_{ttl}_{tti}_{a}_{t}", lines))
+                    n += 1
+    return cases
